@@ -3,6 +3,7 @@
 package work
 
 import (
+	"strings"
 	"bytes"
 	"context"
 	"fmt"
@@ -257,6 +258,11 @@ func EnsureDiskSpace(minFreeGiB uint64) {
 	}
 	free := st.Bavail * uint64(st.Bsize) >> 30
 	if free >= minFreeGiB {
+		return
+	}
+	// never while another check is running (its builds read the cache): then only warn
+	if out, err := exec.Command("pgrep", "-x", "covr").Output(); err == nil && len(strings.Fields(string(out))) > 1 {
+		fmt.Fprintf(os.Stderr, "covr: only %d GiB free, but another covr process is running: the Go build cache is left alone\n", free)
 		return
 	}
 	fmt.Fprintf(os.Stderr, "covr: only %d GiB free, emptying the Go build cache (go clean -cache)\n", free)
